@@ -344,9 +344,6 @@ theorem C01_tipmax_step (r : Repo) (h : Hdr) (ok : Bool) (hmax : TipMax r)
               simp only
               split <;> rfl
           · rw [addToBranch_height r h pb ph lst w hpass.lastIs]; exact hnc pb ph lst hpc
-/-- a history of submissions: each header with the outcome of its hash-vs-target comparison. -/
-def submitAll (r : Repo) (hs : List (Hdr × Bool)) : Repo := hs.foldl (fun s x => (processHeader s x.1 x.2).1) r
-
 /-- no submission of the history triggers the automatic clean or ends in the internal
     branch-update error / a crash (each checked at the state it is submitted to). -/
 def Quiet : Repo → List (Hdr × Bool) → Prop
@@ -370,23 +367,6 @@ theorem C01_tip_maximal_submissions (r : Repo) (hs : List (Hdr × Bool)) (h0 : T
     obtain ⟨h1, h2, h3⟩ := hq
     simp only [submitAll, List.foldl_cons]
     exact ih _ (C01_tipmax_step r x.1 x.2 h0 h1 h2) h3
-
-/-- no submission of the history triggers the automatic clean (checked at the state it is submitted to). -/
-def NoAutoClean : Repo → List (Hdr × Bool) → Prop
-  | _, [] => True
-  | r, x :: xs =>
-    (∀ pb ph lst, precheck r x.1 x.2 = .inr (pb, ph, lst) →
-      Int.tmod ((r.br pb).height + 1) (Facts.autoCleanModulus : Int) ≠ 0) ∧
-    NoAutoClean (processHeader r x.1 x.2).1 xs
-
-theorem linkWF_submitAll (r : Repo) (hs : List (Hdr × Bool)) (hw : LinkWF r.arena) (hq : NoAutoClean r hs) :
-    LinkWF (submitAll r hs).arena := by
-  induction hs generalizing r with
-  | nil => exact hw
-  | cons x xs ih =>
-    obtain ⟨h1, h2⟩ := hq
-    simp only [submitAll, List.foldl_cons]
-    exact ih _ (linkWF_processHeader r x.1 x.2 hw h1) h2
 
 /-- **C01 (sentence 2, submission histories): the reported headers are the tip's ancestry.** After
     ANY finite history of submissions from a well-linked state (e.g. genesis only) — whatever the
